@@ -67,6 +67,7 @@ func replay(p string) {
 	for _, h := range c.Harness {
 		fmt.Println("HARNESS:", h)
 	}
+	_ = os.RemoveAll(fmt.Sprintf("/dev/shm/verif-c01-%d", os.Getpid()))
 	hit := false
 	for _, k := range sortedKeys(c.Findings) {
 		mark := " "
